@@ -200,6 +200,8 @@ impl ChannelSigner for TestChannelSigner {
 		if !self.is_signer_available(SignerOp::ReleaseCommitmentSecret) {
 			return Err(());
 		}
+		#[cfg(feature = "_verif_hooks")]
+		verif_hooks_signer_log::record(self.inner.channel_keys_id(), "release", idx, None);
 		let mut state = self.state.lock().unwrap();
 		if !self.disable_all_state_policy_checks {
 			assert!(idx == state.last_holder_revoked_commitment || idx == state.last_holder_revoked_commitment - 1, "can only revoke the current or next unrevoked commitment - trying {}, last revoked {}", idx, state.last_holder_revoked_commitment);
@@ -215,6 +217,13 @@ impl ChannelSigner for TestChannelSigner {
 	) -> Result<(), ()> {
 		let mut state = self.state.lock().unwrap();
 		let idx = holder_tx.commitment_number();
+		#[cfg(feature = "_verif_hooks")]
+		verif_hooks_signer_log::record(
+			self.inner.channel_keys_id(),
+			"validate_holder",
+			idx,
+			Some(holder_tx.trust().txid()),
+		);
 		if !self.disable_all_state_policy_checks {
 			assert!(
 				idx == state.last_holder_commitment || idx == state.last_holder_commitment - 1,
@@ -228,6 +237,13 @@ impl ChannelSigner for TestChannelSigner {
 	}
 
 	fn validate_counterparty_revocation(&self, idx: u64, _secret: &SecretKey) -> Result<(), ()> {
+		#[cfg(feature = "_verif_hooks")]
+		verif_hooks_signer_log::record(
+			self.inner.channel_keys_id(),
+			"validate_revocation",
+			idx,
+			None,
+		);
 		let mut state = self.state.lock().unwrap();
 		if !self.disable_all_state_policy_checks {
 			assert!(idx == state.last_counterparty_revoked_commitment || idx == state.last_counterparty_revoked_commitment - 1, "expecting to validate the current or next counterparty revocation - trying {}, current {}", idx, state.last_counterparty_revoked_commitment);
@@ -264,6 +280,13 @@ impl EcdsaChannelSigner for TestChannelSigner {
 		if !self.is_signer_available(SignerOp::SignCounterpartyCommitment) {
 			return Err(());
 		}
+		#[cfg(feature = "_verif_hooks")]
+		verif_hooks_signer_log::record(
+			self.inner.channel_keys_id(),
+			"sign_counterparty",
+			commitment_tx.commitment_number(),
+			Some(commitment_tx.trust().txid()),
+		);
 		let mut state = self.state.lock().unwrap();
 		let actual_commitment_number = commitment_tx.commitment_number();
 		let last_commitment_number = state.last_counterparty_commitment;
@@ -309,6 +332,13 @@ impl EcdsaChannelSigner for TestChannelSigner {
 		if !self.is_signer_available(SignerOp::SignHolderCommitment) {
 			return Err(());
 		}
+		#[cfg(feature = "_verif_hooks")]
+		verif_hooks_signer_log::record(
+			self.inner.channel_keys_id(),
+			"sign_holder",
+			commitment_tx.commitment_number(),
+			Some(commitment_tx.trust().txid()),
+		);
 		let trusted_tx =
 			self.verify_holder_commitment_tx(channel_parameters, commitment_tx, secp_ctx);
 		if !self.disable_all_state_policy_checks {
@@ -331,6 +361,13 @@ impl EcdsaChannelSigner for TestChannelSigner {
 		&self, channel_parameters: &ChannelTransactionParameters,
 		commitment_tx: &HolderCommitmentTransaction, secp_ctx: &Secp256k1<secp256k1::All>,
 	) -> Result<Signature, ()> {
+		#[cfg(feature = "_verif_hooks")]
+		verif_hooks_signer_log::record(
+			self.inner.channel_keys_id(),
+			"unsafe_sign_holder",
+			commitment_tx.commitment_number(),
+			Some(commitment_tx.trust().txid()),
+		);
 		Ok(self
 			.inner
 			.unsafe_sign_holder_commitment(channel_parameters, commitment_tx, secp_ctx)
@@ -388,6 +425,13 @@ impl EcdsaChannelSigner for TestChannelSigner {
 		if !self.is_signer_available(SignerOp::SignHolderHtlcTransaction) {
 			return Err(());
 		}
+		#[cfg(feature = "_verif_hooks")]
+		verif_hooks_signer_log::record(
+			self.inner.channel_keys_id(),
+			"sign_holder_htlc",
+			htlc_descriptor.per_commitment_number,
+			Some(htlc_descriptor.commitment_txid),
+		);
 		if !self.disable_all_state_policy_checks {
 			let state = self.state.lock().unwrap();
 			if state.last_holder_revoked_commitment - 1 != htlc_descriptor.per_commitment_number
@@ -568,4 +612,47 @@ impl EnforcementState {
 			disabled_signer_ops: new_hash_set(),
 		}
 	}
+}
+
+/// Verification hooks (feature `_verif_hooks` only); see `ln::verif_hooks`. A per-thread,
+/// append-only record of the state-relevant calls made on any [`TestChannelSigner`].
+#[cfg(all(feature = "_verif_hooks", feature = "std"))]
+pub mod verif_hooks_signer_log {
+	use bitcoin::Txid;
+	use std::cell::RefCell;
+
+	/// One call on a [`super::TestChannelSigner`], recorded on entry (before any policy assertion).
+	#[derive(Clone, Debug, PartialEq, Eq)]
+	pub struct SignerCall {
+		/// The `channel_keys_id` of the signer the call was made on.
+		pub channel_keys_id: [u8; 32],
+		/// Which method: `release`, `validate_holder`, `validate_revocation`, `sign_counterparty`,
+		/// `sign_holder`, `unsafe_sign_holder`, `sign_holder_htlc`.
+		pub kind: &'static str,
+		/// The (backwards-counting) commitment number the call was about.
+		pub number: u64,
+		/// The commitment transaction the call was about, where there is one.
+		pub commitment_txid: Option<Txid>,
+	}
+
+	thread_local! {
+		static LOG: RefCell<Vec<SignerCall>> = RefCell::new(Vec::new());
+	}
+
+	pub(super) fn record(
+		channel_keys_id: [u8; 32], kind: &'static str, number: u64, commitment_txid: Option<Txid>,
+	) {
+		LOG.with(|l| {
+			l.borrow_mut().push(SignerCall { channel_keys_id, kind, number, commitment_txid })
+		});
+	}
+
+	/// Removes and returns everything recorded on this thread so far.
+	pub fn take() -> Vec<SignerCall> {
+		LOG.with(|l| core::mem::take(&mut *l.borrow_mut()))
+	}
+}
+#[cfg(all(feature = "_verif_hooks", not(feature = "std")))]
+mod verif_hooks_signer_log {
+	pub(super) fn record(_: [u8; 32], _: &'static str, _: u64, _: Option<bitcoin::Txid>) {}
 }
